@@ -210,6 +210,12 @@ def run_case(cs):
     else:
         par = "" if at_root or not dirs else rng.choice(dirs)
         where = (par + "/" if par else "") + "zz-added-" + world.gen_name(rng, rng.choice(["plain", "uni"]), ext=False)
+        if rng.random() < 0.2:
+            # names close to the ones that are always left out (ascmhl, .DS_Store): these are ordinary entries
+            nm = rng.choice([".ascmhl", "_ascmhl", "__ascmhl", "._ascmhl", "ascmhl_", "xascmhl", "ascmhl.bak", ".DS_Store_", "_.DS_Store", "Ascmhl"])
+            if not os.path.lexists(os.path.join(work, par, nm)):
+                where = (par + "/" if par else "") + nm
+                cs.count("added_near_miss_of_reserved_name")
         if kind == "add_file":
             with open(os.path.join(work, where), "wb") as f:
                 f.write(world.gen_bytes(rng))
